@@ -50,6 +50,7 @@ type sched struct {
 	trace   []string
 	keepTr  bool
 	problem string
+	exh     uint64 // strategy 5: first + 16*k
 }
 
 func (s *sched) tick() int { s.clock++; return s.clock }
@@ -121,7 +122,15 @@ func (s *sched) run(strategy int, budget int) {
 	}
 	var cur *sthread
 	preempt := map[int]bool{}
-	if strategy == 3 {
+	if strategy == 5 {
+		// bounded-exhaustive exploration, one pre-emption: thread `first` runs `k` of its own steps, then the others
+		// run to completion (lowest id first), then it resumes.  (first, k) are encoded in the schedule seed.
+		first, k := int(s.exh%16), int(s.exh/16)
+		if first < len(s.threads) {
+			cur = s.threads[first]
+		}
+		preempt[s.steps+k] = true
+	} else if strategy == 3 {
 		// one early pre-emption: the first thread is stopped after a few of its own steps (between two of its first
 		// atomic actions), everybody else runs to completion, then it resumes
 		preempt[1+s.r.intn(10)] = true
@@ -183,6 +192,19 @@ func (s *sched) run(strategy int, budget int) {
 				}
 				if len(others) > 0 {
 					pick = others[s.r.intn(len(others))]
+					if strategy == 5 {
+						// deterministic but fair: the next runnable thread after the current one, cyclically (a
+						// fixed preference would starve the holder of a spin lock two other threads are waiting for)
+						pick = others[0]
+						if cur != nil {
+							for _, t := range others {
+								if t.id > cur.id {
+									pick = t
+									break
+								}
+							}
+						}
+					}
 				} else {
 					pick = rs[0]
 				}
@@ -1083,17 +1105,17 @@ func (tr *tracer) note(kind string, addr unsafe.Pointer, arg uint64) {
 type outcome struct {
 	order      []int
 	protoTrace []string
-	prog     *program
-	strategy int
-	schedSd  uint64
-	hist     []*opRec
-	preRes   []string
-	problem  string
-	final    []string // quiescent observation lines
-	steps    int
-	cbLedger []string
-	solo     string
-	trace    []string
+	prog       *program
+	strategy   int
+	schedSd    uint64
+	hist       []*opRec
+	preRes     []string
+	problem    string
+	final      []string // quiescent observation lines
+	steps      int
+	cbLedger   []string
+	solo       string
+	trace      []string
 }
 
 // forcedSchedule, when set, is consumed by the next explore call (exact replay of a recorded schedule)
@@ -1186,7 +1208,7 @@ func explore(p *program, strategy int, schedSeed uint64, budget int, keepTrace b
 	if tg.isCache() {
 		tg.c.cbs = nil
 	}
-	s := &sched{r: newRng(schedSeed), keepTr: false, forced: forcedSchedule}
+	s := &sched{r: newRng(schedSeed), keepTr: false, forced: forcedSchedule, exh: schedSeed}
 	forcedSchedule = nil
 	if tr != nil {
 		tr.tid = func() int {
@@ -1607,7 +1629,7 @@ func (o *outcome) rangeMonitor() []string {
 			}
 		}
 		// provenance of every visited value
-		writes := map[string]string{} // value -> key, from prefill and all ops (values are unique)
+		writes := map[string]string{}   // value -> key, from prefill and all ops (values are unique)
 		reWrites := map[string]string{} // base value of a re-entrant store (3 digits are appended per visit) -> key
 		collect := func(op string) {
 			g := strings.Fields(op)
@@ -1729,6 +1751,8 @@ func schedMode(a map[string]string) {
 	focus := argStr(a, "focus", "")
 	outdir := argStr(a, "out", ".")
 	budget := argInt(a, "budget", 6000)
+	exh := argInt(a, "exh", 0) // number of programs explored exhaustively with one pre-emption
+	nExh := 0
 	wantTrace := argInt(a, "trace", 0) == 1
 	tf, _ := os.Create(outdir + "/trace.txt")
 	tw := bufio.NewWriter(tf)
@@ -1768,12 +1792,44 @@ func schedMode(a map[string]string) {
 				}
 			}
 		}
+		if p < exh && stuck == 0 && focus != "reader" {
+			// bounded-exhaustive: every schedule of this program with exactly one pre-emption (each thread stopped
+			// after each number of its own steps, the others then run to completion)
+			base := explore(prog, 5, 0+16*(1<<30), budget, false, -1)
+			nsteps := map[int]int{}
+			for _, t := range base.order {
+				nsteps[t]++
+			}
+			for first := 0; first < len(prog.threads) && first < 16 && stuck == 0; first++ {
+				for k := 1; k < nsteps[first] && k <= 150 && stuck == 0; k++ { // the first 150 steps of a long thread
+					o := explore(prog, 5, uint64(first)+16*uint64(k), budget, wantTrace, -1)
+					id++
+					o.write(hw, id)
+					if wantTrace && o.protoTrace != nil && o.problem == "" {
+						fmt.Fprintf(tw, "trace %d %s\n", id, prog.header())
+						for _, e := range o.protoTrace {
+							fmt.Fprintln(tw, e)
+						}
+						fmt.Fprintln(tw, "end")
+					}
+					nSwitch += o.steps
+					nExh++
+					for _, b := range o.monitors() {
+						fmt.Fprintf(bw, "%d %s\n", id, b)
+						if strings.HasPrefix(b, "DEADLOCK") || strings.HasPrefix(b, "HANG") || strings.HasPrefix(b, "STEP-BUDGET") || strings.HasPrefix(b, "PANIC") {
+							stuck++
+						}
+					}
+				}
+			}
+		}
 		// schedules that end stuck leave their goroutines behind (blocked or spinning): a handful is enough
 		if stuck >= 6 {
 			break
 		}
 	}
 	fmt.Fprintf(bw, "# explored %d schedules, %d scheduled steps\n", id, nSwitch)
+	fmt.Fprintf(bw, "# exhaustive-one-preemption schedules: %d\n", nExh)
 }
 
 // schedReplay re-runs recorded programs with their exact schedules (corpus of past failures, replays):
